@@ -20,7 +20,8 @@ CLAIMED = {
             "note": "Callees are uninterpreted functions of their arguments. Programme case excluded from the area/time law as in the property."},
     "C13": {"technique": "static: algebraic normal forms + syntactic differentiation",
             "text": "Clausius-Clapeyron and the integral relations of the cooling heat are decided as exact polynomial identities between the "
-                    "normal forms of the four return expressions, for every constant set and temperature at once.",
+                    "normal forms of the four return expressions, for every constant set and temperature at once; K4: no augmented "
+                    "assignment to a parameter (an in-place update of the caller's array of temperatures).",
             "note": "Not decided: closeness to tabulated data; rounding."},
     "C14": {"technique": "static: exhaustive unit-mode enumeration + rational normal forms; who-may-write scan",
             "text": "Permeance.convert is normalised for all ordered unit pairs x component given/None (plus an unknown unit); outcome kind, "
